@@ -15,10 +15,15 @@ Inductive case :=
 | CVerify (d : decision) (vals : list (option N)) (sigs : list (option bsig)) (accepted : bool)
 (* pc.VerifyPart(decision hash, part{idx, sig}) *)
 | CPart (d : decision) (vals : list (option N)) (idx : Z) (s : option bsig) (o : part_obs)
+(* ONE decoded part object, VerifyPart called on it once per decision, in order *)
+| CPartSeq (vals : list (option N)) (idx : Z) (s : option bsig) (calls : list (decision * part_obs))
+(* ONE proof object (decoded, or built with NewProof + Add), Verify called once per decision *)
+| CVerifySeq (vals : list (option N)) (sigs : list (option bsig)) (calls : list (decision * bool))
 (* proofContextMap.Verify(src, height, round, digest, proofs) *)
 | CPcm (src : bytes) (height round : Z) (ctxs : list (Z * list (option N)))
        (digests : list (Z * bytes)) (proofs : list (option (list (option bsig)))) (accepted : bool).
 Arguments CPart d vals idx%Z s o.
+Arguments CPartSeq vals idx%Z s calls.
 Arguments CPcm src height%Z round%Z ctxs digests proofs accepted.
 
 (* printing helpers for the harness *)
@@ -44,8 +49,26 @@ Arguments Dg ntid%Z h.
 
 Definition keys (l : list (option N)) : list (option nat) := map (option_map N.to_nat) l.
 
+Definition part_obs_ok (m : option nat) (o : part_obs) : bool :=
+  match m, o with
+  | Some i, PIndex j => Nat.eqb i (N.to_nat j)
+  | None, PError => true
+  | _, _ => false
+  end.
+
+Fixpoint all2 {A B} (f : A -> B -> bool) (a : list A) (b : list B) : bool :=
+  match a, b with
+  | [], [] => true
+  | x :: a', y :: b' => f x y && all2 f a' b'
+  | _, _ => false
+  end.
+
 Definition check (c : case) : bool :=
   match c with
+  | CPartSeq vals idx s calls =>
+      all2 part_obs_ok (bt_part_session (keys vals) idx s (map fst calls)) (map snd calls)
+  | CVerifySeq vals sigs calls =>
+      all2 Bool.eqb (bt_verify_session (keys vals) sigs (map fst calls)) (map snd calls)
   | CVerify d vals sigs acc => Bool.eqb (bt_verify d (keys vals) sigs) acc
   | CPart d vals idx s o =>
       match bt_verify_part d (keys vals) idx s, o with
